@@ -51,10 +51,10 @@ def cases(rng, tier):
         for j, (lv, _) in enumerate(vals):
             out.append({'m': 'checker', 'c': {'env': K.env_json(), 'ann': ["special", i], 'val': ["inst", K.IDX[K.U]]},
                         'x': {'zoo': [i, j], 'labels': [la, lv]}})
-    out += K.gen_checker_cases(rng, 6000 if tier == 'quick' else 100000)
+    out += K.gen_checker_cases(rng, 4500 if tier == 'quick' else 100000)
     out += T.extra_cases(rng, tier)          # exits of the translated checker the generator meets rarely (ir tie)
     # wrapper level: generated programs, keyword calls that Python accepts for the undecorated twin
-    n = 900 if tier == 'quick' else 8000
+    n = 750 if tier == 'quick' else 8000
     out += C.build_cases(rng, n, calls_per=3, style='kw', tag='c08a')
     out += C.build_cases(rng, n // 3, calls_per=2, profile='incomplete', style='kw', tag='c08b')
     out += C.scenario_cases(rng, n // 8, tag='c08sc')
